@@ -346,8 +346,16 @@ func intrinsic(name string, fn *ssa.Function, args []value, free []value) (value
 		}
 		cl := args[1].(*closure)
 		n := len(sl.s)
-		if n > 12 && name == "sort.Slice" {
-			panic(unwindFail{"sort.Slice with more than 12 elements (pdqsort not modelled)"})
+		// Go sorts up to 12 elements by insertion sort - modelled exactly. Longer slices use
+		// pdqsort; they are modelled by insertion sort as well, which yields the same result
+		// whenever the comparator is a consistent strict weak order whose ties are
+		// indistinguishable downstream (recorded as an assumption; a counterexample that
+		// depends on it would not replay natively and would be reported as inconclusive).
+		if n > 12 {
+			sortAssumed = true
+		}
+		if n > 64 {
+			panic(unwindFail{"sort.Slice with more than 64 elements"})
 		}
 		less := func(i, j int) bool { return branch(call(cl.fn, []value{int64(i), int64(j)}, cl.env)) }
 		for i := 1; i < n; i++ {
@@ -360,6 +368,13 @@ func intrinsic(name string, fn *ssa.Function, args []value, free []value) (value
 		// sequential semantics: the engine explores one call at a time; the use of a lock is
 		// recorded so that purity checks confirm the concurrent behaviour natively
 		syncUses[name] = true
+		return nil, true
+	case "(*sync.WaitGroup).Add", "(*sync.WaitGroup).Done":
+		syncUses[name] = true
+		return nil, true
+	case "(*sync.WaitGroup).Wait":
+		syncUses[name] = true
+		runPendingGoroutines()
 		return nil, true
 	case "(*sync.Mutex).TryLock", "(*sync.RWMutex).TryLock":
 		syncUses[name] = true
@@ -633,6 +648,7 @@ func jsonDecodeStub(doc *jsonStub, target iface) value {
 	return iface{}
 }
 
+var sortAssumed bool
 var inOnce int
 var syncUses = map[string]bool{}
 var onceDone = map[*value]bool{}
